@@ -7,13 +7,55 @@ CONSTANTS NChunks, StrDepth, Depth12, Depth8
 VARIABLE v
 
 N == Len(Entries)
-Parsers == {"dms", "dmslatlon", "dmsangle", "dmsazi", "geocoords", "mgrs", "osgb", "geohash", "gars", "georef", "zone", "val", "valint", "fract", "date", "parseline"}
+Parsers == {"dms", "dmslatlon", "dmsangle", "dmsazi", "geocoords", "mgrs", "mgrsdecode", "osgb", "geohash", "gars", "georef", "zone", "val", "valint", "fract", "date", "parseline"}
+DmsParsers == {"dms", "dmslatlon", "dmsangle", "dmsazi"}
 \* abstract alphabet of bytes: digits, point, signs, DMS symbols, letters with a role, space, exponent, NUL, high bytes
 Alpha == {48, 49, 57, 46, 43, 45, 100, 39, 34, 58, 78, 83, 69, 87, 32, 101, 0, 226, 128, 178, 194, 176, 110, 97, 105, 118, 47, 44}
 
 \* reduced alphabets for longer strings: digits, point, sign, the DMS symbols, one hemisphere letter, space
 Alpha12 == {48, 49, 57, 46, 45, 100, 39, 34, 58, 78, 69, 32}
 Alpha8 == {49, 57, 46, 45, 100, 39, 58, 78}
+
+(* Long digit runs as a lattice dimension (they reach the fixed buffers and the integer accumulators of the parsers, which the *)
+(* short exhaustive strings cannot): prefix \o d^k \o suffix, where prefix and suffix are the empty string or pieces of the    *)
+(* strings the parser accepts, d is a digit and k runs over lengths around the capacities in the documentation (2 zone digits,  *)
+(* 11 + 11 MGRS / 22 OSGB digits, geohash length 18, 9-10 digits of a 32-bit int, 19-20 of a 64-bit one).                          *)
+Run(d, k) == [i \in 1..k |-> d]
+RunLens == {6, 7, 8, 9, 10, 11, 12, 18, 19, 20, 22, 23, 24, 25, 32}
+Pre(p) ==
+  CASE p = "mgrs" -> {<<>>, <<51, 56, 83>>, <<51, 56, 83, 77, 66>>, <<66>>, <<66, 65, 78>>}                      \* '' 38S 38SMB B BAN
+    [] p = "mgrsdecode" -> {<<>>, <<51, 56, 83>>, <<51, 56, 83, 77, 66>>, <<66>>}
+    [] p = "geocoords" -> {<<>>, <<51, 56, 83, 77, 66>>, <<51, 51, 78, 32>>, <<51, 51, 78, 32, 52, 52, 52, 53, 48, 48, 32>>, <<49, 32>>}   \* '' 38SMB '33N ' '33N 444500 ' '1 '
+    [] p = "zone" -> {<<>>, <<45>>, <<43>>}                                                                        \* '' - +
+    [] p = "date" -> {<<>>, <<50, 48, 50, 48, 45>>, <<50, 48, 50, 48, 45, 48, 53, 45>>}                            \* '' 2020- 2020-05-
+    [] p \in {"val", "valint", "fract"} -> {<<>>, <<45>>, <<49, 46>>, <<49, 101>>, <<49, 47>>}                     \* '' - 1. 1e 1/
+    [] p \in DmsParsers -> {<<>>, <<45>>, <<49, 58>>, <<49, 58, 50, 58>>, <<49, 100>>, <<49, 46>>, <<49, 100, 50, 39>>}   \* '' - 1: 1:2: 1d 1. 1d2'
+    [] p = "osgb" -> {<<>>, <<83, 85>>, <<83>>}                                                                    \* '' SU S
+    [] p = "geohash" -> {<<>>, <<101, 122, 115>>}                                                                  \* '' ezs
+    [] p = "gars" -> {<<>>, <<48, 48, 54, 65, 71>>}                                                                \* '' 006AG
+    [] p = "georef" -> {<<>>, <<71, 74, 80, 74>>, <<71, 74>>}                                                      \* '' GJPJ GJ
+    [] OTHER -> {<<>>, <<107, 32, 61, 32>>}                                                                        \* '' 'k = '
+Suf(p) ==
+  CASE p = "mgrs" -> {<<>>, <<83, 77, 66>>, <<83, 77, 66, 52, 52, 56, 56>>, <<65, 78>>}                            \* '' SMB SMB4488 AN
+    [] p = "mgrsdecode" -> {<<>>, <<83, 77, 66>>, <<83, 77, 66, 52, 52, 56, 56>>}
+    [] p = "geocoords" -> {<<>>, <<83, 77, 66>>, <<32, 49>>, <<78, 32, 49>>, <<78, 32, 52, 52, 52, 53, 48, 48, 32, 51, 54, 56, 56, 53, 48, 48>>}   \* '' SMB ' 1' 'N 1' 'N 444500 3688500'
+    [] p = "zone" -> {<<>>, <<78>>, <<110>>, <<110, 111, 114, 116, 104>>}                                          \* '' N n north
+    [] p = "date" -> {<<>>, <<45, 48, 53, 45, 50, 53>>, <<45, 48, 53>>, <<45, 50, 53>>}                            \* '' -05-25 -05 -25
+    [] p \in {"val", "valint", "fract"} -> {<<>>, <<46, 53>>, <<101, 49>>, <<47, 51>>}                             \* '' .5 e1 /3
+    [] p \in DmsParsers -> {<<>>, <<78>>, <<58, 49>>, <<100, 49, 39>>, <<101, 49>>, <<34>>}                        \* '' N :1 d1' e1 "
+    [] p = "osgb" -> {<<>>, <<83, 85>>}
+    [] p = "geohash" -> {<<>>, <<122>>}
+    [] p = "gars" -> {<<>>, <<65, 71, 51, 57>>, <<65, 71>>}                                                        \* '' AG39 AG
+    [] p = "georef" -> {<<>>, <<80, 74>>}
+    [] OTHER -> {<<>>, <<32, 35, 32, 99>>}                                                                         \* '' ' # c'
+(* DMS component sequences: 1 s 1 s 1 ... with every choice of the separators s in {: d ' "}, up to four separators (the     *)
+(* documentation allows three components; a fourth must be refused)                                                          *)
+DmsSeps == {58, 100, 39, 34}
+IsCompSeq(b) == Len(b) >= 1 /\ \A k \in 1..Len(b) : IF k % 2 = 1 THEN b[k] = 49 ELSE b[k] \in DmsSeps
+
+\* model-file fixtures: NumModels x NumConstants of the magnetic model (mag = 1,1), gravity model with a correction set of degree 2
+\* (grv) and with an empty one (grv0: N = M = -1, allowed by the format)
+MKinds == {"mag", "mag10", "mag20", "mag21", "grv", "grv0"}
 
 ValClasses == {"nan", "inf", "neg", "zero", "huge", "maxint", "bigint", "word", "two", "frac", "empty"}
 
@@ -27,6 +69,11 @@ Next ==
   \/ v[1] = "str" /\ Len(v[3]) < StrDepth /\ \E b \in Alpha : v' = <<"str", v[2], Append(v[3], b)>>
   \/ v[1] = "str" /\ Len(v[3]) < Depth12 /\ (\A k \in 1..Len(v[3]) : v[3][k] \in Alpha12) /\ \E b \in Alpha12 : v' = <<"str", v[2], Append(v[3], b)>>
   \/ v[1] = "str" /\ Len(v[3]) < Depth8 /\ (\A k \in 1..Len(v[3]) : v[3][k] \in Alpha8) /\ \E b \in Alpha8 : v' = <<"str", v[2], Append(v[3], b)>>
+  \* long digit runs between pieces of valid strings; DMS component sequences
+  \/ v[1] = "chunk" /\ \E p \in Parsers, k \in {q \in RunLens : q % NChunks = v[2]}, d \in {49, 57} :
+        \E pre \in Pre(p), suf \in Suf(p) : v' = <<"str", p, pre \o Run(d, k) \o suf>>
+  \/ v[1] = "str" /\ v[2] \in DmsParsers /\ Len(v[3]) < 9 /\ IsCompSeq(v[3]) /\
+        \E b \in (IF Len(v[3]) % 2 = 1 THEN DmsSeps ELSE {49}) : v' = <<"str", v[2], Append(v[3], b)>>
   \* corrupted saves: truncation at every length, byte faults at every offset
   \/ v[1] = "chunk" /\ v[2] = 0 /\ \E m \in {"text", "bin"} : v' = <<"nn", m, "none", 0>>                                    \* the unfaulted saves load
   \/ v[1] = "chunk" /\ \E m \in {"text", "bin"}, f \in {"truncate", "flipbyte", "zero", "ff", "append", "digit", "tok-ts", "tok-ts1", "tok-np", "tok-np1", "tok-m1", "tok-m2", "tok-big"},
@@ -34,15 +81,18 @@ Next ==
 
   \* malformed model files (metadata text and binary coefficient file of MagneticModel / GravityModel): byte faults at every
   \* offset, line faults (dropped / duplicated keyword, value replaced by a special class), set-header words replaced
-  \/ v[1] = "chunk" /\ v[2] = 0 /\ \E k \in {"mag", "grv"}, pt \in {"meta", "cof"} : v' = <<"mfile", k, pt, "none", 0>>   \* the unfaulted files load
+  \/ v[1] = "chunk" /\ v[2] = 0 /\ \E k \in MKinds, pt \in {"meta", "cof"} : v' = <<"mfile", k, pt, "none", 0>>   \* the unfaulted files load
   \/ v[1] = "chunk" /\ \E k \in {"mag", "grv"}, f \in {"truncate", "flipbyte", "zero", "ff"},
         p \in {q \in 0..460 : q % NChunks = v[2]} : v' = <<"mfile", k, "meta", f, p>>
   \/ v[1] = "chunk" /\ \E k \in {"mag", "grv"}, f \in {"dropline", "dupline"} \cup {"val-" \o c : c \in ValClasses},
         p \in {q \in 0..19 : q % NChunks = v[2]} : v' = <<"mfile", k, "meta", f, p>>
-  \/ v[1] = "chunk" /\ \E k \in {"mag", "grv"}, f \in {"truncate", "flipbyte", "zero", "ff", "append"},
+  \/ v[1] = "chunk" /\ \E k \in {"mag", "grv", "grv0"}, f \in {"truncate", "flipbyte", "zero", "ff", "append"},
         p \in {q \in 0..370 : q % NChunks = v[2]} : v' = <<"mfile", k, "cof", f, p>>
-  \/ v[1] = "chunk" /\ \E k \in {"mag", "grv"}, f \in {"word-" \o c : c \in {"m1", "m2", "max", "min", "n1", "e5", "e4", "64k"}},
+  \/ v[1] = "chunk" /\ \E k \in {"mag", "grv", "grv0", "mag20"}, f \in {"word-" \o c : c \in {"m1", "m2", "max", "min", "n1", "e5", "e4", "64k"}},
         p \in {q \in 0..90 : q % NChunks = v[2]} : v' = <<"mfile", k, "cof", f, p>>
+  \* both header words of a coefficient set replaced: (-1,-1), (0,0), (N,N+1), (0,-1) with the data kept; "empty": the set replaced
+  \* by a well-formed empty set (N = M = -1 and no coefficients)
+  \/ v[1] = "chunk" /\ v[2] = 1 /\ \E k \in MKinds, f \in {"pair-m1", "pair-00", "pair-n1", "pair-0m1", "empty"}, p \in 0..3 : v' = <<"mfile", k, "cof", f, p>>
 
   \* malformed geoid rasters: byte faults at every offset of header and data, line faults, value classes for every header field
   \/ v[1] = "chunk" /\ v[2] = 0 /\ v' = <<"gfile", "none", 0>>
@@ -57,6 +107,9 @@ TableInv ==
   /\ \A i \in 1..N : Entries[i].k = "ctor" => Entries[i].o = 0
   \* every sort rejects NaN for constructors and accepts an ordinary value
   /\ \A s \in {"a", "k0", "gm", "omega", "f", "fpos", "stdlat"} : Invalid(s, "nan") /\ ~Invalid(s, "tiny")
+  \* the entries with a documented NaN marker exist, validate, and no sort of theirs calls NaN invalid
+  /\ \A nm \in NanDocumented : \E i \in 1..N : Entries[i].n = nm /\ Entries[i].k = "validating"
+                                                /\ \A j \in 1..Len(Entries[i].a) : ~Invalid(Entries[i].a[j], "nan")
 
 Emit == v[1] \in {"call", "str", "nn", "mfile", "gfile"} => PrintT(ToJson(v))
 =============================================================================
